@@ -12,6 +12,8 @@
     pick <r> F*                                -> <idx-id> <cumbits> | err:nan | panic:<site>
     newsampler <t> <k> <p> <mp>                -> <t> <k> <p> <mp>
     rng <seed> <n>                             -> <24-bit numerators,>
+    hist <fix> <t> <k> <p> <mp> <seed> <ncalls> {F*}^ncalls E
+         -> <result of call 1>;<result of call 2>;...   (requested parameters; generator threaded by the model)
     sample <fix> <pre> <t> <k> <p> <mp> <r> <n> {<id> <bits>}* E
          -> ok <id> kt=.. kp=.. km=.. c=.. | err:<class> ... | panic:<site> ...
 -/
@@ -191,6 +193,24 @@ def handle (toks' : List String) : Option String :=
       let seed ← int
       let n ← nat
       pure (joinWith "," ((pcgStream n (pcgOfSeed seed)).map toString))) rest
+  | "hist" :: rest =>
+    runTP (do
+      let fix ← nat
+      let t ← pF
+      let k ← int
+      let p ← pF
+      let mp ← pF
+      let seed ← int
+      let nc ← nat
+      let calls ← rep nc (listOf pF)
+      let tbl ← pExp
+      let o := f32Ops tbl
+      let P := newParams o t k p mp
+      let toF : Nat → Float32 := fun n => Float32.ofNat n / Float32.ofNat 16777216
+      let rs := sampleHist o toF (fix != 0) P (pcgOfSeed seed) calls
+      pure (joinWith ";" (rs.map fun r => match r with
+        | .ok id => s!"ok {id}"
+        | .error e => showErr e))) rest
   | "sample" :: rest =>
     runTP (do
       let fix ← nat
